@@ -118,6 +118,20 @@ fn broken_lib(libs: &[GenLib]) -> Option<(Value, String)> {
     Some((json!({"namespace": "blib", "version": [0, 1, 0], "deps": [l.namespace.clone()], "modules": [{"path": "blib::m2", "source": src}]}), "use.blib::m2\nbegin\n    exec.m2::bar\nend\n".to_string()))
 }
 
+/// a library whose module `m0` fails while its procedures are added to the procedure cache (a wrapper
+/// with the same MAST root as a procedure with locals) *after* an earlier export was added, and a
+/// module `m1` re-exporting that earlier export: a request through `m1` must fail every time
+fn broken_lib_partial_insert() -> (Value, String) {
+    let base = "export.withlocals.2\n    push.1 loc_store.0\nend\n";
+    let m0 = "use.clib::base\n\nexport.good\n    push.7 drop\nend\n\nexport.wrapper\n    exec.base::withlocals\nend\n";
+    let m1 = "use.clib::m0\n\nexport.m0::good->alias\n\nexport.own\n    push.8 drop\nend\n";
+    (
+        json!({"namespace": "clib", "version": [0, 1, 0], "deps": [], "modules": [
+            {"path": "clib::base", "source": base}, {"path": "clib::m0", "source": m0}, {"path": "clib::m1", "source": m1}]}),
+        "use.clib::m1\nbegin\n    exec.m1::alias\nend\n".to_string(),
+    )
+}
+
 fn mk_assembler(libs: &[MaslLibrary], order: &[usize], debug: bool) -> Result<Assembler, String> {
     let mut a = Assembler::default().with_debug_mode(debug);
     for i in order {
@@ -260,7 +274,11 @@ impl Prop for C11 {
         let mut libs_json = libs_to_json(&libs);
         let mut order: Vec<usize> = (0..nlibs).collect();
         rng.shuffle(&mut order);
-        let broken = if rng.chance(1, 3) { broken_lib(&libs) } else { None };
+        let broken = match rng.below(6) {
+            0 | 1 => broken_lib(&libs),
+            2 => Some(broken_lib_partial_insert()),
+            _ => None,
+        };
         let mut requests: Vec<Value> = vec![];
         let n = rng.range(6, 40);
         let valid_pool: Vec<String> = (0..rng.range(2, 6)).map(|_| gen_user_program(rng, &libs)).collect();
